@@ -48,7 +48,7 @@ def c11_script(hist, stype, scen, variant):
 
 
 def c12_script(rng, stype, scen):
-    n = rng.randint(2, 4)
+    n = rng.randint(2, 6)
     ops = []
     for c in range(1, n + 1):
         ops.append({"op": "attach", "c": c, "ptype": "SUB"})
@@ -69,7 +69,9 @@ def c12_script(rng, stype, scen):
             elif r < 0.85:
                 ops.append({"op": "credit", "c": c})             # unlimited again
             else:
-                ops += [{"op": "pclose", "c": c}, {"op": "wbreak", "c": c}]
+                # the connection dies: either the socket's reader notices first (close, then writes fail) or the publisher's own
+                # write is the first to fail (broken pipe while the read side is still silent)
+                ops += [{"op": "pclose", "c": c}, {"op": "wbreak", "c": c}] if rng.random() < 0.5 else [{"op": "wbreak", "c": c}]
                 slow = [s for s in slow if s != c] or [c]
         else:
             k += 1
